@@ -5,7 +5,7 @@ A packet is send, and then it is acknowledged by a '+'.
 """
 
 import logging
-from queue import Queue
+from queue import Queue, Empty, Full
 from threading import Lock
 
 
@@ -30,6 +30,13 @@ class RspHandler:
     def sendpkt(self, data, retries=10):
         """sends data via the RSP protocol to the device"""
         with self._lock:
+            # Acks which arrived while no packet was outstanding are stale:
+            try:
+                while True:
+                    res = self._ack_queue.get_nowait()
+                    self.logger.warning("discards stale %s", res)
+            except Empty:
+                pass
             wire_data = self.rsp_pack(data)
             self.logger.debug("--> %s", wire_data)
             self.send(wire_data)
@@ -56,7 +63,11 @@ class RspHandler:
                 self.logger.debug("<-- %s", msg)
 
             if msg in ["+", "-"]:
-                self._ack_queue.put(msg, timeout=0.5)
+                try:
+                    self._ack_queue.put(msg, timeout=0.5)
+                except Full:
+                    # Nobody is waiting for this ack, keep receiving.
+                    self.logger.warning("discards unexpected %s", msg)
             else:
                 self.decodepkt(msg)
 
